@@ -8,6 +8,7 @@ package main
 // every list item; lists have length 0 or 2).
 
 import (
+	"math"
 	"strings"
 
 	"verifharness/internal/hx"
@@ -205,7 +206,7 @@ func exhaustiveDocs(thorough bool) []exDoc {
 func exhaustiveFamily(h *hx.H) {
 	s := fixedSchema()
 	e := &enumerator{s: s}
-	limit := 1500
+	limit := 1000
 	if h.Thorough() {
 		limit = 40000
 	}
@@ -229,6 +230,90 @@ func exhaustiveFamily(h *hx.H) {
 				if strings.HasPrefix(d.text, "{") {
 					n.List[6].List = append(n.List[6].List, sexp.Sym("exhaustive"))
 				}
+				return n
+			})
+		}
+	}
+}
+
+// The leaf-coercion family: one field per built-in scalar (and an enum, and custom scalars reusing
+// the built-in coercers); for each, EVERY value of a table of boundary values of every Go dynamic
+// type result coercion switches on.
+func leafTable() []leaf {
+	var out []leaf
+	out = append(out, leaf{kind: "bool", b: true}, leaf{kind: "bool", b: false}, leaf{kind: "other"})
+	ints := []int64{0, 1, -1, 127, -128, 255, 32767, -32768, 65535, 2147483646, 2147483647, 2147483648, -2147483647, -2147483648, -2147483649,
+		4294967295, 9007199254740991, 9007199254740992, 9007199254740993, 9007199254740995, -9007199254740993, 9223372036854775807, -9223372036854775808}
+	for _, ik := range []string{"i8", "u8", "i16", "u16", "i32", "u32", "i64", "u64", "int", "uint"} {
+		seen := map[string]bool{}
+		for _, v := range ints {
+			l := leaf{kind: "int", ik: ik}
+			switch ik {
+			case "i8":
+				l.z = int64(int8(v))
+			case "u8":
+				l.z = int64(uint8(v))
+			case "i16":
+				l.z = int64(int16(v))
+			case "u16":
+				l.z = int64(uint16(v))
+			case "i32":
+				l.z = int64(int32(v))
+			case "u32":
+				l.u = uint64(uint32(v))
+			case "u64", "uint":
+				l.u = uint64(v)
+			default:
+				l.z = v
+			}
+			k := l.bigInt().String()
+			if !seen[k] {
+				seen[k] = true
+				out = append(out, l)
+			}
+		}
+		if ik == "u64" || ik == "uint" {
+			for _, u := range []uint64{1 << 63, 1<<63 - 1, 1<<63 + 1024, 1<<63 + 1025, 1<<64 - 1, 1<<64 - 1024, 1<<64 - 1025, 9223372036854775807 + 1} {
+				out = append(out, leaf{kind: "int", ik: ik, u: u})
+			}
+		}
+	}
+	for _, f := range []float64{0, math.Copysign(0, -1), 1, -1, 0.5, 1.5, -2.25, 0.1, 2147483647, 2147483647.5, 2147483648, -2147483648, -2147483648.5, -2147483649,
+		1e10, 1e21, 1e-7, 123456789.125, 1e300, 5e-324, 1.7976931348623157e308, math.NaN(), math.Inf(1), math.Inf(-1), 4294967296, 9007199254740993} {
+		out = append(out, leaf{kind: "f64", f: f})
+	}
+	for _, f := range []float64{0, 1, -7, 0.5, 16777216, 16777217, 3.4028234663852886e38, float64(float32(0.1)), 2147483648, -2147483648, math.NaN(), math.Inf(1), math.Inf(-1)} {
+		out = append(out, leaf{kind: "f32", f: f})
+	}
+	for _, s := range []string{"", "a", "10", "-5", "v0", "v1", "X_V0", "with \"quotes\" and \\", "<tag>&", "caf\u00e9 \u2603 \U0001F600", "line\nbreak\ttab\x01"} {
+		out = append(out, leaf{kind: "str", s: s})
+	}
+	return out
+}
+
+func leafFamily(h *hx.H) {
+	s := &schemaDef{byName: map[string]*typeDef{}, query: "Q"}
+	for _, b := range builtinScalars {
+		s.add(&typeDef{name: b.name, kind: "scalar", scalarKind: b.kind})
+	}
+	q := &typeDef{name: "Q", kind: "object"}
+	for _, b := range builtinScalars {
+		s.add(&typeDef{name: "C" + b.name, kind: "scalar", scalarKind: b.kind})
+		q.fields = append(q.fields, fieldDef{"f" + b.name, named(b.name)}, fieldDef{"n" + b.name, nonNull(named(b.name))}, fieldDef{"c" + b.name, named("C" + b.name)})
+	}
+	s.add(&typeDef{name: "X", kind: "enum", enumVals: []enumVal{{"X_V0", leaf{kind: "int", ik: "int", z: 0}}, {"X_V1", leaf{kind: "str", s: "v1"}},
+		{"X_V2", leaf{kind: "f64", f: 1.5}}, {"X_V3", leaf{kind: "bool", b: true}}, {"X_V4", leaf{kind: "int", ik: "u8", z: 1}}}})
+	q.fields = append(q.fields, fieldDef{"x", named("X")})
+	s.add(q)
+	table := leafTable()
+	for _, f := range q.fields {
+		f := f
+		for _, l := range table {
+			l := l
+			h.Case(func(*rng.R) sexp.Node {
+				w := &outcome{kind: "obj", tag: "Q", names: []string{f.name}, fields: map[string]*outcome{f.name: {kind: "leaf", leaf: l}}}
+				n := runCase(caseInput{s: s, text: "{" + f.name + "}", env: map[string]bool{}, mkW: func(parsedDoc) *outcome { return w }})
+				n.List[6].List = append(n.List[6].List, sexp.Sym("exhaustive"), sexp.Sym("leaf-family"))
 				return n
 			})
 		}
